@@ -90,7 +90,13 @@ func (s *xscanner) scanExpression() (XTokenType, string) {
 		return EXPRESSION, buf.String()
 	}
 
-	return BODY, strings.Join([]string{"@(", buf.String()}, "")
+	// not a complete expression so this is body text like any other, and @@ in it is an escaped @
+	body := buf.String()
+	if s.unescapeBody {
+		body = strings.ReplaceAll(body, "@@", "@")
+	}
+
+	return BODY, strings.Join([]string{"@(", body}, "")
 }
 
 // reads the remainder of a " quoted text literal
